@@ -156,7 +156,7 @@ def spec_strategy(kind, tier, exact_only=False, **wl_kw):
 
     def build(tb):
         def with_domain(exact):
-            rate = schedlab.nice_rate() if exact else st.sampled_from([1e4, 56000.0, 123456.7, 8e5])
+            rate = schedlab.nice_rate() if exact else st.sampled_from([1e4, 56000.0, 123456.7, 8e5, 3e6, 7e5, 2.4e10, 1.5e6])
             wl = schedlab.sched_workload(tb["flows"], 40 if big else 24, exact=exact, **wl_kw)
             return st.tuples(rate, wl).map(lambda t: {"kind": kind, "exact": exact, "rate": t[0], "table": tb["table"],
                                                       "f2c": tb["f2c"], "wl": t[1]})
